@@ -380,7 +380,7 @@ struct RebuildSearch {
             }
             pg.publish(rep);
         }
-        rep.states += states; rep.transitions += transitions; rep.nontrivial += 1;
+        rep.states += states; rep.transitions += transitions; rep.nontrivial += states - 1;      // distinct canonical states other than the initial one
         rep.spaces.push_back("C13 " + std::string(Periodic ? "periodic " : "") + "dim=" + std::to_string(Dim) + " h=" + std::to_string(spec.height) + " particles=" + std::to_string(spec.parts.size())
             + " extra-data=" + std::to_string(NbExtra) + " coordtype=" + (sizeof(Real) == 4 ? "float" : "double") + " datatype=" + (sizeof(DataT) == 4 ? "float" : "double")
             + " bs=" + std::to_string(spec.blockSize) + " ogpp=" + std::to_string(spec.oneGroupPerParent) + " depth=" + std::to_string(depth) + ": states=" + std::to_string(states) + " transitions=" + std::to_string(transitions));
